@@ -44,6 +44,7 @@ func src(n ast.Node) string {
 func main() {
 	repo := flag.String("repo", "/repo", "repository root")
 	out := flag.String("out", "/verif/coq/Gen", "output directory")
+	flag.StringVar(&statusPath, "status", "/verif/run/extract_status.json", "status file")
 	flag.Parse()
 	cfg := &packages.Config{
 		Mode: packages.NeedName | packages.NeedFiles | packages.NeedSyntax | packages.NeedTypes | packages.NeedTypesInfo | packages.NeedImports | packages.NeedDeps,
@@ -70,15 +71,17 @@ func main() {
 	writeIfChanged(filepath.Join(*out, "Decisions.v"), genDecisions())
 	writeIfChanged(filepath.Join(*out, "PanicSites.v"), genPanicSites())
 	b, _ := json.MarshalIndent(status, "", " ")
-	os.MkdirAll("/verif/run", 0o755)
-	os.WriteFile("/verif/run/extract_status.json", b, 0o644)
+	os.MkdirAll(filepath.Dir(statusPath), 0o755)
+	os.WriteFile(statusPath, b, 0o644)
 }
+
+var statusPath string
 
 func fail(msg string) {
 	status["error"] = msg
 	b, _ := json.MarshalIndent(status, "", " ")
-	os.MkdirAll("/verif/run", 0o755)
-	os.WriteFile("/verif/run/extract_status.json", b, 0o644)
+	os.MkdirAll(filepath.Dir(statusPath), 0o755)
+	os.WriteFile(statusPath, b, 0o644)
 	fmt.Fprintln(os.Stderr, "extract:", msg)
 	os.Exit(1)
 }
